@@ -446,29 +446,54 @@ fn run<C: CondT>(cx: &mut Ctx, sub: u64) {
     }
     cx.out.count_n("operations accepted", ops.len() as u64);
 
+    let Some(mut finals) = random_order_replicas(cx, &hist, &ops, &created, nt, c33, &mut rng, &mut st) else {
+        return;
+    };
+    // peers that happen to know everything take part in the comparison as well
+    for p in &peers {
+        if p.known.len() == ops.len() {
+            finals.push(p.y.clone());
+        }
+    }
+    compare_and_tie(cx, &hist, &ops, &created, &finals, nt, c33);
+}
+
+/// Fresh replicas processing the accepted operations in random causal orders (replica 0: creation order),
+/// each queried twice after every operation.
+#[allow(clippy::too_many_arguments)]
+fn random_order_replicas<C: CondT>(
+    cx: &mut Ctx,
+    hist: &str,
+    ops: &[POp],
+    created: &[u8],
+    nt: bool,
+    c33: bool,
+    rng: &mut Rng,
+    st: &mut HistStats,
+) -> Option<Vec<Y<C>>> {
     // ---- fresh replicas, random causal orders ------------------------------------------------------
     let nrep = 4;
     let mut finals: Vec<Y<C>> = vec![];
     for rix in 0..nrep {
         let mut y = G::<C>::init();
         let mut done: BTreeSet<u32> = BTreeSet::new();
-        let mut rest: Vec<POp> = ops.clone();
+        let mut rest: Vec<POp> = ops.to_vec();
         while !rest.is_empty() {
             let ready: Vec<usize> =
                 (0..rest.len()).filter(|i| rest[*i].deps.iter().all(|d| done.contains(d))).collect();
             let k = if rix == 0 { ready[0] } else { *rng.pick(&ready) };
             let o = rest.remove(k);
-            let (y2, w) = process_event(cx, &y, &o, &hist, c33 && rix < 2, nt, &mut st);
+            let (y2, w) = process_event(cx, &y, &o, hist, c33 && rix < 2, nt, st);
             let Some(y2) = y2 else {
                 let n = cx.out.cases.saturating_sub(1);
                 cx.out.oracle_fail(
                     n,
                     "decision-differs-between-replicas",
                     &format!("operation {} accepted by its author is answered {w} by a replica processing in another causal order", o.id),
-                    &hist,
+                    hist,
                     &w,
                 );
-                return;
+                return None;
             };
             y = y2;
             done.insert(o.id);
@@ -484,26 +509,24 @@ fn run<C: CondT>(cx: &mut Ctx, sub: u64) {
                                 "query-not-repeatable"
                             };
                             let n = cx.out.cases.saturating_sub(1);
-                            cx.out.oracle_fail(n, tag, &format!("two queries of group {g} on one replica differ: {a:?} vs {b:?}"), &hist, "");
+                            cx.out.oracle_fail(n, tag, &format!("two queries of group {g} on one replica differ: {a:?} vs {b:?}"), hist, "");
                         }
                     }
                     Err(e) => {
                         let n = cx.out.cases.saturating_sub(1);
-                        cx.out.oracle_fail(n, "query-panic", &e, &hist, "PANIC");
-                        return;
+                        cx.out.oracle_fail(n, "query-panic", &e, hist, "PANIC");
+                        return None;
                     }
                 }
             }
         }
         finals.push(y);
     }
-    // peers that happen to know everything take part in the comparison as well
-    for p in &peers {
-        if p.known.len() == ops.len() {
-            finals.push(p.y.clone());
-        }
-    }
+    Some(finals)
+}
 
+/// C31 oracle (all replicas answer alike), C33 oracle (members introduced), and the `mrg` / `mem` model tie.
+fn compare_and_tie<C: CondT>(cx: &mut Ctx, hist: &str, ops: &[POp], created: &[u8], finals: &[Y<C>], nt: bool, c33: bool) {
     // ---- C31: all replicas answer alike -------------------------------------------------------------
     for g in created.iter().filter(|_| cx.prop == "C31") {
         let answers: Vec<_> = finals.iter().map(|y| query(y, *g)).collect();
@@ -525,7 +548,7 @@ fn run<C: CondT>(cx: &mut Ctx, sub: u64) {
                     n,
                     tag,
                     &format!("group {g}: replicas with the same operation set answer {:?} and {:?}", answers[0], a),
-                    &hist,
+                    hist,
                     "",
                 );
                 break;
@@ -548,7 +571,7 @@ fn run<C: CondT>(cx: &mut Ctx, sub: u64) {
                     });
                     if !introduced {
                         let n = cx.out.cases.saturating_sub(1);
-                        cx.out.oracle_fail(n, "member-not-introduced", &format!("{} is an active member of group {g} without an accepted create/add naming it", show_mem(*m)), &hist, "");
+                        cx.out.oracle_fail(n, "member-not-introduced", &format!("{} is an active member of group {g} without an accepted create/add naming it", show_mem(*m)), hist, "");
                     }
                 }
             }
@@ -567,7 +590,7 @@ fn run<C: CondT>(cx: &mut Ctx, sub: u64) {
         let cur = y.inner.current_state();
         cx.out.case(&format!("mrg {joined}").trim_end().to_string(), &show_gstates(&plain_gstates(&cur)), nt && hs.len() > 1);
         cx.out.count(&format!("mrg: {} heads", hs.len().min(4)));
-        for g in &created {
+        for g in created {
             let (m, gr, r) = query(y, *g);
             let hz = hazard(&cur, Id(*g));
             let rs = show_mem_acc_list(&r, true);
@@ -582,6 +605,184 @@ fn run<C: CondT>(cx: &mut Ctx, sub: u64) {
     }
 }
 
+/// All linear extensions of the operation DAG (depth-first, replica state cloned at every branching point),
+/// up to `cap` complete orders; children visited in random order. Returns the final replicas.
+#[allow(clippy::too_many_arguments)]
+fn all_orders<C: CondT>(
+    cx: &mut Ctx,
+    hist: &str,
+    y: &Y<C>,
+    done: &mut BTreeSet<u32>,
+    rest: &[POp],
+    cap: usize,
+    rng: &mut Rng,
+    st: &mut HistStats,
+    out: &mut Vec<Y<C>>,
+) -> bool {
+    if rest.is_empty() {
+        out.push(y.clone());
+        return true;
+    }
+    let mut ready: Vec<usize> = (0..rest.len()).filter(|i| rest[*i].deps.iter().all(|d| done.contains(d))).collect();
+    rng.shuffle(&mut ready);
+    for k in ready {
+        if out.len() >= cap {
+            break;
+        }
+        let o = rest[k].clone();
+        let (y2, w) = process_event(cx, y, &o, hist, false, false, st);
+        let Some(y2) = y2 else {
+            let n = cx.out.cases.saturating_sub(1);
+            cx.out.oracle_fail(
+                n,
+                "decision-differs-between-replicas",
+                &format!("operation {} is answered {w} in one causal delivery order of a history whose creation order accepts it", o.id),
+                hist,
+                &w,
+            );
+            return false;
+        };
+        let mut r2: Vec<POp> = rest.to_vec();
+        r2.remove(k);
+        done.insert(o.id);
+        let ok = all_orders(cx, hist, &y2, done, &r2, cap, rng, st, out);
+        done.remove(&o.id);
+        if !ok {
+            return false;
+        }
+    }
+    true
+}
+
+/// Targeted family (C31): one member is removed and re-added on one or two branches while a concurrent
+/// branch changes that member's access level (so its access counter is ahead of the re-added entry's, whose
+/// counter restarted at 0), optionally followed by a merge point and two concurrent access changes. Without
+/// conditions and without nesting: any dependence of `state::merge` on argument order shows up as replicas
+/// (or repeated queries of one replica) disagreeing. Every causal delivery order (up to a cap) is replayed on
+/// its own replica and every replica is queried repeatedly.
+fn targeted<C: CondT>(cx: &mut Ctx, sub: u64) {
+    let hist = format!("hist T{} {}", if C::UNIT { "U" } else { "C" }, sub);
+    let mut rng = Rng::new(sub ^ 0x7a11);
+    let mut st = HistStats::default();
+    let g = GROUP_BASE;
+    let target: Mem = (false, 3);
+    let mut ops: Vec<POp> = vec![];
+    let mut id = 0u32;
+    let mut mk = |author: u8, deps: Vec<u32>, act: Act, ops: &mut Vec<POp>| -> u32 {
+        id += 1;
+        ops.push(POp { id, author, deps, group: g, act });
+        id
+    };
+    let start_level = rng.below(3) as u8;
+    let root = mk(
+        0,
+        vec![],
+        Act::Create(vec![((false, 0), (3, None)), ((false, 1), (3, None)), ((false, 2), (3, None)), (target, (start_level, None))]),
+        &mut ops,
+    );
+    let mut heads: Vec<u32> = vec![];
+    // branch A (manager 0): 1-3 access changes of the target
+    let mut lvl = start_level;
+    let mut last = root;
+    for _ in 0..rng.range(1, 3) {
+        let mut l2 = rng.below(3) as u8;
+        if l2 == lvl {
+            l2 = (l2 + 1) % 3;
+        }
+        last = mk(0, vec![last], if l2 > lvl { Act::Promote(target, (l2, None)) } else { Act::Demote(target, (l2, None)) }, &mut ops);
+        lvl = l2;
+    }
+    heads.push(last);
+    if rng.chance(2, 3) {
+        // one remove (manager 1), then 2-3 *concurrent* re-adds with different levels on top of it: the re-added
+        // entries all carry member counter 3 / access counter 0, the concurrent branch A an older membership
+        // period with a higher access counter
+        let r = mk(1, vec![root], Act::Remove(target), &mut ops);
+        let n = rng.range(2, 3) as u8;
+        let first = rng.below(3) as u8;
+        for b in 0..n {
+            let l = (first + b) % 3;
+            let mut last = mk([1u8, 2, 0][b as usize], vec![r], Act::Add(target, (l, None)), &mut ops);
+            if rng.chance(1, 4) {
+                last = mk([1u8, 2, 0][b as usize], vec![last], Act::Promote(target, ((l + 1) % 3, None)), &mut ops);
+            }
+            heads.push(last);
+        }
+    } else {
+        // branches B, C (managers 1, 2): each removes and re-adds with some level (+ sometimes one more change)
+        let nb = rng.range(1, 2);
+        for b in 0..nb {
+            let m = 1 + b as u8;
+            let r = mk(m, vec![root], Act::Remove(target), &mut ops);
+            let l = rng.below(3) as u8;
+            let mut last = mk(m, vec![r], Act::Add(target, (l, None)), &mut ops);
+            if rng.chance(1, 3) {
+                last = mk(m, vec![last], Act::Promote(target, ((l + 1) % 3, None)), &mut ops);
+            }
+            heads.push(last);
+        }
+    }
+    // follow-up: a merge point and two concurrent access changes on top of it
+    if rng.chance(1, 2) {
+        heads.sort();
+        let mp = mk(0, heads.clone(), Act::Add((false, 5), (1, None)), &mut ops);
+        let l1 = rng.below(3) as u8;
+        let l2 = (l1 + 1 + rng.below(2) as u8) % 3;
+        mk(1, vec![mp], Act::Demote(target, (l1, None)), &mut ops);
+        mk(2, vec![mp], Act::Promote(target, (l2, None)), &mut ops);
+    }
+    // creation order must be accepted throughout (otherwise the construction does not apply to this tree)
+    let mut y = G::<C>::init();
+    let mut accepted: Vec<POp> = vec![];
+    for o in &ops {
+        let (y2, _) = process_event(cx, &y, o, &hist, false, false, &mut st);
+        match y2 {
+            Some(y2) => {
+                y = y2;
+                accepted.push(o.clone());
+            }
+            None => {
+                cx.out.count("targeted histories: an operation rejected in creation order (dependants dropped)");
+                break;
+            }
+        }
+    }
+    let ops = accepted;
+    cx.out.count("targeted histories (remove + re-add concurrent with access changes)");
+    let mut finals: Vec<Y<C>> = vec![];
+    let cap = if ops.len() <= 7 { 600 } else { 120 };
+    if !all_orders(cx, &hist, &G::<C>::init(), &mut BTreeSet::new(), &ops, cap, &mut rng, &mut st, &mut finals) {
+        return;
+    }
+    cx.out.count_n("targeted: causal delivery orders replayed", finals.len() as u64);
+    // every replica is queried repeatedly (each query merges the heads in a fresh HashSet order)
+    if cx.prop == "C31" {
+        for y in finals.iter().take(40) {
+            let first = query(y, g);
+            for _ in 0..24 {
+                let again = query(y, g);
+                if again != first {
+                    let n = cx.out.cases.saturating_sub(1);
+                    cx.out.oracle_fail(
+                        n,
+                        "query-not-repeatable",
+                        &format!("repeated queries of group {g} on one replica differ: {first:?} vs {again:?}"),
+                        &hist,
+                        "",
+                    );
+                    break;
+                }
+            }
+        }
+    }
+    let c33 = cx.prop == "C33";
+    compare_and_tie(cx, &hist, &ops, &[g], &finals, true, c33);
+}
+
+pub fn targeted_history(cx: &mut Ctx, sub: u64, unit: bool) {
+    if unit { targeted::<()>(cx, sub) } else { targeted::<Cond>(cx, sub) }
+}
+
 pub fn history(cx: &mut Ctx, sub: u64, unit: bool) {
     if unit { run::<()>(cx, sub) } else { run::<Cond>(cx, sub) }
 }
@@ -593,6 +794,10 @@ pub fn replay(cx: &mut Ctx, req: &str) {
         return;
     }
     let sub: u64 = t[2].parse().expect("sub-seed");
+    if t[1].starts_with('T') {
+        targeted_history(cx, sub, t[1] == "TU");
+        return;
+    }
     history(cx, sub, t[1] == "U");
 }
 
